@@ -70,6 +70,10 @@ def assignment_case(rng, version, text, vlevel):
     name, dt, pos = rng.choice(fields)
     init = l.field_to_s(name)
     ops = []
+    if rng.random() < 0.2 and 'zq' not in l.tagnames:
+        # a tag that does not exist yet: a string value makes it a Z tag
+        name, dt, pos, init = 'zq', 'Z', None, None
+        ops.append(('set', rng.choice(['hello', 'a b', 'tab\there', '', 'x\ny'])))
     for _ in range(rng.randint(3, 8)):
         k = rng.random()
         if k < 0.45:
@@ -131,6 +135,12 @@ def run_assignment(case):
             if r[0] == 'ok':
                 cur = op[1]
             obs.append('ok' if r[0] == 'ok' else 'err')
+        elif cur is None:
+            # the tag does not exist (its only assignment was refused): reading or validating it is an error of gfapy
+            r = impl.outcome((lambda: l.field_to_s(name)) if op[0] == 'write' else (lambda: l.validate_field(name)))
+            if r[0] == 'ok' or r[1][0] != 'gfapy':
+                fails.append(('%s of the undefined tag %s did not raise a gfapy error' % (op[0], name), 'gfapy.Error', impl.outcome_name(r)))
+            obs.append('err')
         elif op[0] == 'write':
             r = impl.outcome(lambda: l.field_to_s(name))
             ok_val = valid_for(case, cur)
@@ -262,7 +272,7 @@ def run(ctx, deep, model_ok):
             ctx.count(c, invalid)
             for what, exp, ob in fails[:1]:
                 ctx.violation('failing-input', what, c, exp, ob, python=py_of(c))
-            if model_ok and not fails:
+            if model_ok and not fails and c['init'] is not None:
                 try:
                     terms.append(assign_term(c, obs))
                     metas.append(c)
